@@ -31,7 +31,7 @@ char* _ZN7QString6insertEiRKS_(char *self, uint32_t i, char *o) { QAD *b = *(QAD
 static void vpl_t_trim(const uint16_t *p, uint32_t n, uint32_t *from, uint32_t *to) { uint32_t a = 0, b = 0; uint8_t lead = 1;
   for (uint32_t i = 0; i < C03_TCAP; i++) { if (i >= n) break; if (!c03_is_space(p[i])) { lead = 0; b = i + 1; } else if (lead) a = i + 1; }
   if (b < a) b = a; *from = a; *to = b; }
-void _ZN7QString14trimmed_helperERKS_(char *ret, char *self) { QAD *a = *(QAD**)self; uint32_t f, t; vpl_t_trim(qs_chars(a), a->f1, &f, &t); *(QAD**)ret = c03_qs(qs_chars(a) + f, t - f, 0, 0); }
+void _ZN7QString14trimmed_helperERKS_(char *ret, char *self) { QAD *a = *(QAD**)self; uint32_t f, t; vpl_t_trim(qs_chars(a), a->f1, &f, &t); *(QAD**)ret = c03_slice(qs_chars(a), a->f1, f, t); }
 void _ZN7QString14trimmed_helperERS_(char *ret, char *self) { _ZN7QString14trimmed_helperERKS_(ret, self); }
 
 /* ---- QRegularExpression: exactly the two patterns of processData ---- */
@@ -51,10 +51,12 @@ static uint32_t vpl_re_start(const uint16_t *p, uint32_t n) { uint32_t pos = 0;
   if (pos + 3 <= n && p[pos] == U_HA && IS_MID(p[pos + 1]) && p[pos + 2] == U_HB) return pos + 3;
   return 0; }
 /* </stream:stream>$ : the subject ends with the close tag (token form or the literal), optionally followed by one final newline */
-static int vpl_lit_at(const uint16_t *p, uint32_t at) { for (uint32_t k = 0; k < 16; k++) if (p[at + k] != C03_CLOSE_LIT[k]) return 0; return 1; }
+static int vpl_lit_const(const uint16_t *p, uint32_t j) { for (uint32_t k = 0; k < 16; k++) if (p[j + k] != C03_CLOSE_LIT[k]) return 0; return 1; }
+/* does p[0..n) end with the literal?  (comparisons at constant positions, selected by n) */
+static int vpl_lit_at_end(const uint16_t *p, uint32_t n) { int r = 0; for (uint32_t j = 0; j + 16 <= C03_TCAP; j++) { if (j + 16 == n && vpl_lit_const(p, j)) r = 1; } return r; }
 static int c03_re_end(const uint16_t *p, uint32_t n) { if (n > 0 && p[n - 1] == 0x0A) n--;
   if (n >= 3 && p[n - 3] == U_CA && p[n - 2] == U_CB && p[n - 1] == U_CC) return 1;
-  if (n >= 16 && vpl_lit_at(p, n - 16)) return 1; return 0; }
+  if (n >= 16 && vpl_lit_at_end(p, n)) return 1; return 0; }
 void _ZNK18QRegularExpression5matchERK7QStringiNS_9MatchTypeE6QFlagsINS_11MatchOptionEE(char *ret, char *self, char *subj, uint32_t off, uint32_t mt, uint32_t mo) {
   struct c03_re *r = *(struct c03_re**)self; QAD *s = *(QAD**)subj; struct c03_match *m = malloc(sizeof(struct c03_match)); ASSUME(m != 0); m->has = 0; m->cap0 = SHARED_NULL;
   ASSERT(off == 0 && mt == 0 && mo == 0, "QRegularExpression::match model: default arguments only"); ASSERT(s->f1 <= C03_TCAP, "text model: subject longer than the bound");
@@ -76,7 +78,7 @@ struct c03_doc { uint8_t ok; uint16_t hid; uint32_t nch; uint16_t cid[C03_MAXCHI
 /* token automaton; the literal close tag is recognised as the last 16 units only (that is where the real code puts it; the
    harness never feeds '<' as an ordinary character) */
 static struct c03_doc vpl_parse(const uint16_t *p, uint32_t n) { struct c03_doc D; D.ok = 0; D.hid = 0; D.nch = 0; for (uint32_t k = 0; k < C03_MAXCHILD; k++) D.cid[k] = 0;
-  uint32_t lit = 0; if (n >= 16 && vpl_lit_at(p, n - 16)) { lit = 1; n -= 16; }
+  uint32_t lit = 0; if (n >= 16 && vpl_lit_at_end(p, n)) { lit = 1; n -= 16; }
   uint32_t st = 0 /* 0 prolog, 1 inside <stream>, 2 after </stream> */, skip = 0; uint8_t bad = 0;
   for (uint32_t i = 0; i < C03_TCAP; i++) { if (i >= n) break; if (skip) { skip--; continue; } uint16_t u = p[i];
     if (u == U_PA) { if (i == 0 && n >= 2 && p[1] == U_PB) skip = 1; else bad = 1; }
@@ -112,29 +114,43 @@ void _ZN5QXmpp7Private10XmppSocket14streamReceivedERK11QDomElement(char *self, c
 void _ZN5QXmpp7Private10XmppSocket14stanzaReceivedERK11QDomElement(char *self, char *el) { if (!DN(el)) { c03_keepalive++; return; } c03_log(EV_STANZA, c03_tag(DN(el)), c03_ns(DN(el))); }
 void _ZN5QXmpp7Private10XmppSocket12streamClosedEv(char *self) { c03_log(EV_CLOSED, 0, 0); }
 
-/* ---- harness side: a symbolic stream, its expected events, its chunks ---- */
-static uint32_t c03_exp[C03_MAXEV], c03_nexp;
-static void c03_expect(uint32_t kind, uint32_t a, uint32_t b) { c03_exp[c03_nexp++] = (kind << 24) | ((a & 0xFFF) << 12) | (b & 0xFFF); }
+/* ---- harness side: a symbolic stream, the position/events bookkeeping of the inductive step ---- */
 static uint16_t c03_ws(void) { return vp_bool() ? 0x0A : 0x20; }
 #ifndef C03_MAXSTANZAS
 #define C03_MAXSTANZAS 3
 #endif
-/* stream = [P] [ws] H [ws] (X [ws])^n [C]   or, when the header was received earlier (`cached` = what the start pattern
-   captured then): [ws] (X [ws])^n [C] */
-void vp_c03_make_stream(char *text, char *cached, uint32_t maxst) { uint16_t t[C03_TCAP]; uint32_t n = 0; uint16_t c[8]; uint32_t nc = 0; for (uint32_t i = 0; i < C03_TCAP; i++) t[i] = 0; for (uint32_t i = 0; i < 8; i++) c[i] = 0;
-  uint8_t earlier = vp_bool(); uint16_t hid = 0xE100 + vp_u8();
-  uint8_t decl = vp_bool(), ws0 = vp_bool(); uint16_t w0 = c03_ws();
-  if (earlier) { if (decl) { c[nc++] = U_PA; c[nc++] = U_PB; } if (ws0) c[nc++] = w0; c[nc++] = U_HA; c[nc++] = hid; c[nc++] = U_HB; }
-  else { if (decl) { t[n++] = U_PA; t[n++] = U_PB; } if (ws0) t[n++] = w0; t[n++] = U_HA; t[n++] = hid; t[n++] = U_HB; c03_expect(EV_STREAM, hid, hid); }
-  if (vp_bool()) t[n++] = c03_ws();
+/* the stream text T and what the specification needs to know about it */
+static struct { uint16_t t[C03_TCAP]; uint32_t n; uint8_t earlier, decl, ws0; uint32_t hend /* end of the header piece, 0 = no header in T */;
+  uint16_t c[8]; uint32_t nc;                         /* header text cached from an earlier part of the stream */
+  uint32_t ev[C03_MAXEV], evend[C03_MAXEV], nev; } S;  /* events of T in order, each with the end position of its piece */
+static void c03_piece_event(uint32_t kind, uint32_t a, uint32_t b) { S.ev[S.nev] = (kind << 24) | ((a & 0xFFF) << 12) | (b & 0xFFF); S.evend[S.nev] = S.n; S.nev++; }
+/* stream = [P] [ws] H [ws] (X [ws])^n [C]   or, when the header was received earlier: [ws] (X [ws])^n [C] */
+void vp_c03_make_stream(char *text, uint32_t maxst, uint32_t part) { for (uint32_t i = 0; i < C03_TCAP; i++) S.t[i] = 0; for (uint32_t i = 0; i < 8; i++) S.c[i] = 0; for (uint32_t i = 0; i < C03_MAXEV; i++) { S.ev[i] = 0; S.evend[i] = 0; }
+  S.n = 0; S.nc = 0; S.nev = 0; S.hend = 0;
+  S.earlier = vp_bool(); if (part == 1) ASSUME(!S.earlier); if (part == 2) ASSUME(S.earlier); if (part == 1) S.earlier = 0; if (part == 2) S.earlier = 1; uint16_t hid = 0xE100 + vp_u8(); S.decl = vp_bool(); S.ws0 = vp_bool(); uint16_t w0 = c03_ws();
+  if (S.earlier) { if (S.decl) { S.c[S.nc++] = U_PA; S.c[S.nc++] = U_PB; } if (S.ws0) S.c[S.nc++] = w0; S.c[S.nc++] = U_HA; S.c[S.nc++] = hid; S.c[S.nc++] = U_HB; }
+  else { if (S.decl) { S.t[S.n++] = U_PA; S.t[S.n++] = U_PB; } if (S.ws0) S.t[S.n++] = w0; S.t[S.n++] = U_HA; S.t[S.n++] = hid; S.t[S.n++] = U_HB; S.hend = S.n; c03_piece_event(EV_STREAM, hid, hid); }
+  if (vp_bool()) S.t[S.n++] = c03_ws();
   uint32_t ns = vp_u8(); ASSUME(ns <= maxst && ns <= C03_MAXSTANZAS);
-  for (uint32_t k = 0; k < C03_MAXSTANZAS; k++) { if (k >= ns) break; uint16_t id = 0xE100 + vp_u8(); t[n++] = U_XA; t[n++] = id; t[n++] = U_XB; c03_expect(EV_STANZA, id, hid); if (vp_bool()) t[n++] = c03_ws(); }
-  if (vp_bool()) { t[n++] = U_CA; t[n++] = U_CB; t[n++] = U_CC; c03_expect(EV_CLOSED, 0, 0); }
-  *(QAD**)text = c03_qs(t, n, 0, 0); *(QAD**)cached = nc ? c03_qs(c, nc, 0, 0) : SHARED_NULL; }
-void vp_c03_chunk(char *out, char *text, uint32_t from, uint32_t to) { QAD *t = *(QAD**)text; ASSERT(from <= to && to <= t->f1, "chunk positions ordered"); *(QAD**)out = c03_qs(qs_chars(t) + from, to - from, 0, 0); }
+  for (uint32_t k = 0; k < C03_MAXSTANZAS; k++) { if (k >= ns) break; uint16_t id = 0xE100 + vp_u8(); S.t[S.n++] = U_XA; S.t[S.n++] = id; S.t[S.n++] = U_XB; c03_piece_event(EV_STANZA, id, hid); if (vp_bool()) S.t[S.n++] = c03_ws(); }
+  if (vp_bool()) { S.t[S.n++] = U_CA; S.t[S.n++] = U_CB; S.t[S.n++] = U_CC; c03_piece_event(EV_CLOSED, 0, 0); }
+  *(QAD**)text = c03_qs(S.t, S.n, 0, 0); }
+uint32_t vp_c03_length(void) { return S.n; }
+/* may the receiver have consumed everything before `pos`?  <=> pos is not inside a piece; [P] [ws] H counts as one piece
+   unless only the leading whitespace has been consumed */
+uint8_t vp_c03_boundary(uint32_t pos) { if (pos == 0) return 1; if (pos > S.n) return 0; uint16_t u = S.t[pos - 1];
+  if (u == U_HB || u == U_XB || u == U_CC) return 1;
+  if (u == 0x20 || u == 0x0A) { if (!S.earlier && pos < S.hend) return !S.decl; return 1; }
+  return 0; }
+/* header text the receiver has cached when everything before `j` is consumed (x0: the leading whitespace was consumed on its own) */
+void vp_c03_cached_at(char *out, uint32_t j, uint8_t x0) { if (S.earlier) { *(QAD**)out = c03_qs(S.c, S.nc, 0, 0); return; }
+  if (S.hend == 0 || j < S.hend) { *(QAD**)out = SHARED_NULL; return; }
+  uint32_t from = (x0 && S.ws0 && !S.decl) ? 1 : 0; *(QAD**)out = c03_slice(S.t, S.n, from, S.hend); }
+void vp_c03_slice(char *out, uint32_t from, uint32_t to) { *(QAD**)out = c03_slice(S.t, S.n, from, to); }
+/* the events logged are exactly the events of the pieces that end in (j, j2], in order */
+uint8_t vp_c03_events_are(uint32_t j, uint32_t j2) { uint32_t k = 0; uint8_t ok = 1;
+  for (uint32_t i = 0; i < C03_MAXEV; i++) { if (i >= S.nev) break; if (S.evend[i] > j && S.evend[i] <= j2) { if (k >= c03_nev || c03_ev[k] != S.ev[i]) ok = 0; k++; } }
+  return ok && k == c03_nev; }
 uint32_t vp_c03_events(void) { return c03_nev; }
-uint32_t vp_c03_expected(void) { return c03_nexp; }
-/* every event logged so far equals the expected event at the same position */
-uint8_t vp_c03_events_are_prefix(void) { if (c03_nev > c03_nexp) return 0; for (uint32_t i = 0; i < C03_MAXEV; i++) { if (i >= c03_nev) break; if (c03_ev[i] != c03_exp[i]) return 0; } return 1; }
-uint8_t vp_c03_buffer_empty(char *s) { return (*(QAD**)s)->f1 == 0; }
+uint32_t vp_c03_header_end(void) { return S.hend; }
 #endif
